@@ -288,6 +288,8 @@ class Frames(Suite):
             if sum(len(p.get("data") or "") for p in pkts) > 100000 and 1 in frag:
                 frag = [4096, 0]
             op = {"op": "frames", "pkts": pkts, "frag": frag}
+            if rng.random() < 0.25:
+                op["reuse"] = True      # one packet struct reused for every send
             if rng.random() < 0.15:
                 # a frame header that announces more bytes than follow (truncated / hostile stream)
                 # ... also with more than one pooled buffer (32 KiB) of bytes actually delivered behind the bogus length
